@@ -77,6 +77,18 @@ fn main() {
         std::env::set_var("VERIF_REPLAY_MODE", "1");
     }
     let args = Args { id: id.clone(), tier, replay, rest };
+    // Wall-clock guard: a subject that blocks forever inside a check that has no scheduler of its own
+    // (possible only on a tree where C08/C20 are violated) must end the run as a machinery failure,
+    // never as a silent hang and never as a verdict.  Worker subprocesses are not affected.
+    if !args.rest.iter().any(|a| a == "--worker") {
+        let cap: u64 = std::env::var("VERIF_WALL_CAP_S").ok().and_then(|v| v.parse().ok()).unwrap_or(if args.tier == "quick" { 1500 } else { 6 * 3600 });
+        let idc = id.clone();
+        std::thread::spawn(move || {
+            std::thread::sleep(std::time::Duration::from_secs(cap));
+            println!("MACHINERY-FAILURE: {idc} exceeded the wall-clock cap of {cap} s (a call into the decoder did not return, or the tier is too large for this machine); no verdict");
+            std::process::exit(2);
+        });
+    }
     // A panic inside the *machinery* (not inside a guarded call into the subject) is a machinery failure.
     let r = std::panic::catch_unwind(|| match id.as_str() {
         "C01" => c01::main(&args),
